@@ -10,16 +10,29 @@ one() {
   NAME=$1; SCR=$2
   D=$SCR/$NAME
   [ -f /verif/seeded/$NAME/patch.diff ] || return
-  mkdir -p $D/repo $D/verif
-  rsync -a --exclude .git /repo/ $D/repo/
+  mkdir -p $D/repo $D/verif $D/base $D/bverif
+  # a seed whose lines were touched by later fix: commits carries "base_commit" in its meta.json: it
+  # is applied to that commit, and only what it ADDS to the reports of that base tree counts
+  BASE=$(python3 -c "import json;print(json.load(open('/verif/seeded/$NAME/meta.json')).get('base_commit',''))" 2>/dev/null)
+  if [ -n "$BASE" ]; then
+    git -C /repo archive $BASE | tar -x -C $D/repo
+    git -C /repo archive $BASE | tar -x -C $D/base
+    cp /verif/known_findings.json $D/bverif/
+  else
+    rsync -a --exclude .git /repo/ $D/repo/
+  fi
   cp /verif/known_findings.json $D/verif/
   if ! (cd $D/repo && patch -p1 -s --no-backup-if-mismatch < /verif/seeded/$NAME/patch.diff >/dev/null 2>&1); then echo "$NAME: patch does not apply"; rm -rf $D; return; fi
   RES=""; DETAIL=""
   for P in $(/verif/bin/mrocheck -list); do
-    O=$(GOMAXPROCS=4 /verif/bin/mrocheck -repo $D/repo -verif $D/verif -property $P 2>&1 | grep -v '^WARNING')
+    O=$(GOMAXPROCS=4 /verif/bin/mrocheck -repo $D/repo -verif $D/verif -property $P 2>&1 | grep -v '^WARNING' | grep '^VIOLATION\|^UNDECIDED' | grep -v '^VIOLATION property' | cut -d' ' -f1,2)
+    if [ -n "$BASE" ]; then
+      B=$(GOMAXPROCS=4 /verif/bin/mrocheck -repo $D/base -verif $D/bverif -property $P 2>&1 | grep '^VIOLATION\|^UNDECIDED' | grep -v '^VIOLATION property' | cut -d' ' -f1,2)
+      O=$(comm -23 <(echo "$O" | sort -u) <(echo "$B" | sort -u))
+    fi
     if echo "$O" | grep -q '^VIOLATION\|^UNDECIDED'; then
       RES="$RES $P"
-      DETAIL="$DETAIL$(echo "$O" | grep '^VIOLATION\|^UNDECIDED' | grep -v '^VIOLATION property' | cut -d' ' -f2 | tr '\n' ' ')"
+      DETAIL="$DETAIL$(echo "$O" | grep '^VIOLATION\|^UNDECIDED' | cut -d' ' -f2 | tr '\n' ' ')"
     fi
   done
   rm -rf $D
